@@ -141,7 +141,10 @@ def to_lua(doc):
     if isinstance(doc, str):
         return lua_string(doc)
     if isinstance(doc, list):
-        return "{" + ", ".join(to_lua(v) for v in doc) + "}"
+        # Lua/DataSpec.v (C14 specification, VD_seq): element i (0-based) is under the key i + 1 and a null
+        # element is an absent key - written with explicit keys so that the reference does not depend on
+        # how a constructor with nil positional entries is written or read
+        return "{" + ", ".join("[%d] = %s" % (i + 1, to_lua(v)) for i, v in enumerate(doc) if v is not None) + "}"
     return "{" + ", ".join("[%s] = %s" % (lua_string(k), to_lua(v)) for k, v in doc.items()) + "}"
 
 
@@ -162,20 +165,26 @@ def to_json5(doc, rnd):
     return json.dumps(doc)
 
 
-def yaml_scalar(v):
-    return json.dumps(v)           # JSON scalars are YAML flow scalars (null, true, 1.5, "a\nb")
+def yaml_scalar(v, k=0):
+    if v is None:
+        return ["null", "~", "Null", ""][k % 4]
+    return json.dumps(v)           # JSON scalars are YAML flow scalars (true, 1.5, "a\nb")
 
 
 def to_yaml(doc):
     """block style at the top, flow (JSON) style below"""
+    if isinstance(doc, list):
+        # a top-level sequence in block style
+        return "\n".join("- %s" % (yaml_scalar(x, i) if not isinstance(x, (dict, list)) else json.dumps(x))
+                         for i, x in enumerate(doc)).replace("- \n", "-\n") + "\n"
     if isinstance(doc, dict):
         lines = []
         for k, v in doc.items():
             key = k if is_ident(k) else json.dumps(k)
             if isinstance(v, list) and v and all(not isinstance(x, (dict, list)) for x in v):
                 lines.append("%s:" % key)
-                for x in v:
-                    lines.append("  - %s" % yaml_scalar(x))
+                for i, x in enumerate(v):
+                    lines.append(("  - %s" % yaml_scalar(x, i + len(lines))).rstrip())
             elif isinstance(v, dict) and v and all(not isinstance(x, (dict, list)) for x in v.values()):
                 lines.append("%s:" % key)
                 for kk, x in v.items():
@@ -223,6 +232,21 @@ def gen_scalar(rnd, nulls):
     return rnd.choice(pool)()
 
 
+HOLES = [[1, None, 3], [None, True], [10, None, None, 40], ["a", None, "c", None, "e"], [None, None, 7],
+         [[1, None, 3], None, [None, 2]], [{"k": [None, "v"]}, None, {"k": 2}], [False, None, 0]]
+
+
+def holes_doc(rnd, marker, top_array=False):
+    """sequences with nulls that are not last, also nested in mappings and sequences"""
+    if top_array:
+        return [marker] + rnd.choice([[None, 3], [None, None, "x", None, True], [[None, 1], None, {"a": [None, 2]}]])
+    doc = {"_p": marker}
+    for k in rnd.sample(["seq", "lead", "many", "b c", "z"], 3):
+        doc[k] = rnd.choice(HOLES)
+    doc["nested"] = {"in": rnd.choice(HOLES), "x": rnd.choice([None, 1])}
+    return doc
+
+
 def gen_doc(rnd, fmt, marker):
     nulls = fmt != "toml"
     keys = ["a", "b", "name", "list", "nested", "b c", "1x", "end", "z_9", "v"]
@@ -245,6 +269,8 @@ def gen_doc(rnd, fmt, marker):
             for kk in rnd.sample(["x", "y", "k k", "deep"], rnd.randint(1, 3)):
                 sub[kk] = gen_scalar(rnd, nulls) if rnd.random() < 0.8 else ([1, 2] if fmt == "toml" else [1, "two"])
             doc[k] = sub
+    if nulls and rnd.random() < 0.5:
+        doc["holes"] = rnd.choice(HOLES)
     return doc
 
 
@@ -276,13 +302,14 @@ def doc_probes(doc, acc):
 DATA_FORMATS = ["json", "json5", "yaml", "yml", "toml", "txt"]
 
 
-def make_data(rnd, fmt, path):
-    """(file text, python value) - the value a require of the file must give"""
+def make_data(rnd, fmt, path, holes=None):
+    """(file text, python value) - the value a require of the file must give.
+    holes: None | "map" | "array" - a document made of sequences with interior nulls"""
     marker = "@@" + path
     if fmt == "txt":
         text = marker + rnd.choice(["", "\nsecond line", " \"q\" ]] \\ tail", "\n"])
         return text, text
-    doc = gen_doc(rnd, fmt, marker)
+    doc = holes_doc(rnd, marker, holes == "array") if holes else gen_doc(rnd, fmt, marker)
     if fmt == "json":
         return json.dumps(doc, indent=rnd.choice([None, 1])), doc
     if fmt == "json5":
@@ -330,6 +357,8 @@ def show(m, x):
     if t == "data":
         if isinstance(m.doc, str):
             return x
+        if isinstance(m.doc, list):
+            return '(type(%s) .. %s[1])' % (x, x)
         return '(type(%s) .. %s._p)' % (x, x)
     return "tostring(%s)" % x       # false / true / nil
 
@@ -651,6 +680,13 @@ def gen_project(rnd, mode=None, n=None, want=None):
     mods = [Mod(0, entry_path, "lua", "entry")]
     used = {entry_path}
     names = ["a", "b", "c", "util", "core", "state", "conf", "x1", "mod", "init"]
+    dirs = LAYOUT_DIRS
+    if want is None and rnd.random() < 0.4:
+        # a tiny pool of file names over more directories: equal base names (and equal trailing path
+        # components) in different directories are the rule, and requires go through `..`
+        names = ["util", "config", "init"]
+        dirs = ["src", "src/lib", "src/util", "src/lib/util", "lib", "lib/util", "src/lib/config"]
+        proj["features"].add("tiny-name-pool")
     for i in range(1, n):
         for _ in range(50):
             if rnd.random() < 0.22:
@@ -659,9 +695,9 @@ def gen_project(rnd, mode=None, n=None, want=None):
                 kind, vt = "data", "data"
             else:
                 nm = rnd.choice(names)
-                d = rnd.choice(LAYOUT_DIRS)
+                d = rnd.choice(dirs)
                 if nm == "init":
-                    d = d + "/" + rnd.choice(["pkg", "folder"])
+                    d = d + "/" + rnd.choice(["pkg", "folder"] if dirs is LAYOUT_DIRS else ["util", "config", "x"])
                 path = "%s/%s.%s" % (d, nm, rnd.choice(["lua", "lua", "luau"]))
                 kind, vt = "lua", rnd.choice(VTYPES)
             stem = path.rsplit(".", 1)[0]
@@ -744,6 +780,9 @@ def gen_project(rnd, mode=None, n=None, want=None):
             proj["graph"][m.path] = ("lua", list(m.sites), 1 if m.idx else None)
     proj["roots"] = list(mods[0].sites)
     proj["modules"] = len(live) - 1
+    bases = [posixpath.basename(m.path) for m in live]
+    if len(set(bases)) < len(bases):
+        proj["features"].add("equal-base-names")
     for m in live:
         if m.idx:
             proj["features"].add("returns:" + m.vtype)
@@ -819,15 +858,83 @@ def twin_project(rnd, mode, variant):
     return proj
 
 
+# files with the same name, or the same trailing path components, in an ancestor / sibling / deeper
+# directory: [entry, m1, m2, ...]; the chain entry -> m1 -> m2 -> ... is ACYCLIC although a comparison of
+# path suffixes or of file names would see m2 "again" while m1 is being inlined
+SAMENAME_LAYOUTS = [
+    ["src/main.lua", "src/util.lua", "util.lua"],
+    ["src/main.lua", "src/lib/config.lua", "lib/config.lua", "config.lua"],
+    ["src/main.lua", "src/a/x/init.lua", "src/x/init.lua", "x/init.lua"],
+    ["src/main.lua", "src/a/util.lua", "src/b/util.lua", "src/util.lua"],
+    ["app/main.lua", "lib/config.lua", "app/lib/config.lua", "app/src/lib/config.luau"],
+    ["src/util.lua", "lib/util.lua", "lib/util/util.lua", "lib/util/util/init.lua"],
+    ["src/main.lua", "src/lib/util/config.lua", "src/util/config.lua", "util/config.lua", "src/lib/config.lua"],
+]
+
+
+def root_level_hazard(mode, paths, adj):
+    """a file whose requires are resolved from the project root (a file directly in the root; in luau mode
+    also `<dir>/init.lua` of a top-level directory) and that requires something: darklua then names what it
+    requires `./x/y.lua` while the same file reached from elsewhere is `x/y.lua` (a recorded finding)"""
+    return any(resolution_base(mode, paths[i]) == "" and adj[i] for i in range(len(paths)))
+
+
+def layout_project(rnd, mode, paths, adj, vtypes=None):
+    """an acyclic project over the given files (0 = entry) with full module bodies (behaviour stream)"""
+    proj = {"mode": mode, "features": {"equal-base-names", "samename-layout"}, "files": {}, "nested": False,
+            "excludes": [], "excluded": [], "shared": True}
+    mods = [Mod(0, paths[0], "lua", "entry")]
+    for i, path in enumerate(paths[1:], 1):
+        mods.append(Mod(i, path, "lua", vtypes[i - 1] if vtypes else rnd.choice(["table", "table", "func", "string"])))
+    for i, targets in enumerate(adj):
+        mods[i].deps = list(targets)
+    for m in mods:
+        proj["files"][m.path] = ""
+    for m in reversed(mods[1:]):
+        proj["files"][m.path] = lua_module_text(proj, rnd, m, mods)
+    proj["files"][paths[0]] = entry_text(proj, rnd, mods[0], mods)
+    proj["entry"] = paths[0]
+    proj["reference"] = reference_text(proj, mods)
+    proj["graph"] = {m.path: ("lua", list(m.sites), 1 if m.idx else None) for m in mods}
+    proj["roots"] = list(mods[0].sites)
+    proj["modules"] = len(mods) - 1
+    return proj
+
+
+def data_holes_project(rnd, mode, fmt, holes):
+    """the entry and a module require a data file whose sequences have nulls that are not last; the
+    entry reads every index"""
+    proj = {"mode": mode, "features": {"data-holes:" + fmt, "data-holes-shape:" + holes}, "files": {}, "nested": False,
+            "excludes": [], "excluded": [], "shared": True}
+    mods = [Mod(0, "src/main.lua", "lua", "entry"), Mod(1, "src/data/holes.%s" % fmt, "data", "data"),
+            Mod(2, "src/reader.lua", "lua", "table"), Mod(3, "src/data/more.%s" % rnd.choice(["json", "yaml", "json5"]), "data", "data")]
+    mods[0].deps = [1, 2, 3]
+    mods[2].deps = [1]
+    for m in mods:
+        proj["files"][m.path] = ""
+    for m in (mods[1], mods[3]):
+        m.text, m.doc = make_data(rnd, m.path.rsplit(".", 1)[1], m.path, holes if m.idx == 1 else rnd.choice(["map", "array"]))
+        proj["files"][m.path] = m.text
+    proj["files"][mods[2].path] = lua_module_text(proj, rnd, mods[2], mods)
+    proj["files"][mods[0].path] = entry_text(proj, rnd, mods[0], mods)
+    proj["entry"] = mods[0].path
+    proj["reference"] = reference_text(proj, mods)
+    proj["graph"] = {m.path: (("data",) if m.kind == "data" else ("lua", list(m.sites), 1 if m.idx else None)) for m in mods}
+    proj["roots"] = list(mods[0].sites)
+    proj["modules"] = 3
+    return proj
+
+
 # ---------------------------------------------------------------------------------------------
 # small graphs, all of them (cycles, missing files, malformed modules)
 
 
-def small_project(n, adj, mode="path", defect=None):
+def small_project(n, adj, mode="path", defect=None, paths=None):
     """n nodes (0 = entry `src/main.lua`, i = `src/m<i>.lua`); adj[i] = list of targets of node i in
     textual order. defect = None | ("missing", i) | ("syntax", i) | ("two", i) | ("three", i) | ("noreturn", i) | ("bare", i) |
     ("bare-semicolon", i) | ("doreturn", i) | ("baddata", i, fmt)"""
-    paths = ["src/main.lua"] + ["src/m%d.lua" % i for i in range(1, n)]
+    custom = paths is not None
+    paths = list(paths) if custom else ["src/main.lua"] + ["src/m%d.lua" % i for i in range(1, n)]
     files, graph = {}, {}
     nf = {}
     if defect and defect[0] == "baddata":
@@ -840,6 +947,10 @@ def small_project(n, adj, mode="path", defect=None):
                 lit = "./gone%d" % j
                 sites.append(("nf", lit))
                 nf[lit] = j
+            elif custom:
+                sp = spellings(mode, paths[i], paths[j], set(paths))
+                lit = sp[(k + i) % len(sp)]
+                sites.append(paths[j])
             else:
                 base = posixpath.basename(paths[j])
                 lit = "./" + (base if (k + i) % 2 or not base.endswith(".lua") else base[:-4])
@@ -880,8 +991,8 @@ def small_project(n, adj, mode="path", defect=None):
             continue
         files[paths[i]] = text
         graph[paths[i]] = kind
-    roots = graph["src/main.lua"][1] if graph["src/main.lua"][0] == "lua" else []
-    return {"files": files, "entry": "src/main.lua", "mode": mode, "excludes": [], "graph": graph, "roots": roots,
+    roots = graph[paths[0]][1] if graph[paths[0]][0] == "lua" else []
+    return {"files": files, "entry": paths[0], "mode": mode, "excludes": [], "graph": graph, "roots": roots,
             "paths": paths, "adj": adj, "defect": defect, "features": set()}
 
 
